@@ -38,7 +38,7 @@ const tail = "\"}\n"
 
 func main() {
 	ev.Main("C16", "exploration",
-		"seeded JSON documents (unicode, nesting, compact/indented/odd whitespace, escaped and raw separator look-alikes, embedded signed documents, two keys, signature times 1990-2020) signed through jsonsign; for each, every single-byte substitution (5-7 values), insertion (4 values), deletion and truncation at every position of the signed document plus signature-packet byte flips with repaired checksum, signature transplants, re-signing by the other key, signer swaps, armor and separator variants, crafted signature packets (unhashed issuer / issuer-fingerprint subpackets naming another key, re-encoded packet headers: what is signed unchanged, reported signer compared with the named key at Verify, camli/sig/verify and the index), gpg-style signatures (issuer only unhashed), JSON members inserted after the camliSig value (new keys, duplicates of signed keys, second camliSig, nested, with/without whitespace: an accepted document carries nothing outside its payload but camliSig), hand-written signature packets by the other key stating another public-key algorithm (3/2/17/19/22, right digest prefix, issuer = victim; accepted => the value verifies by the harness's own RSA check under the named key), documents naming an encrypt-only key; unsigned objects with further keys that are case variants of camliSigner/camliVersion/camliType/camliSig before and after the real key, signed through five signing entry points incl. rings holding both keys; documents signed through the DEFAULT secret ring (SignRequest with neither EntityFetcher nor SecretKeyringPath, jsonsign handler configured without secretRing: POST camli/sig/sign, Handler.Sign, Signer) with the default resolved through CAMLI_SECRET_RING (single-entity ring, ring holding both keys) or CAMLI_CONFIG_DIR/identity-secring.gpg; distinct = distinct mutant byte string; non-trivial = differs from every validly signed document and was submitted to Verify",
+		"seeded JSON documents (unicode, nesting, compact/indented/odd whitespace, escaped and raw separator look-alikes, embedded signed documents, two keys, signature times 1990-2020) signed through jsonsign; for each, every single-byte substitution (5-7 values), insertion (4 values), deletion and truncation at every position of the signed document plus signature-packet byte flips with repaired checksum, signature transplants, re-signing by the other key, signer swaps, armor and separator variants, crafted signature packets (unhashed issuer / issuer-fingerprint subpackets naming another key, re-encoded packet headers: what is signed unchanged, reported signer compared with the named key at Verify, camli/sig/verify and the index), gpg-style signatures (issuer only unhashed), JSON members inserted after the camliSig value (new keys, duplicates of signed keys, second camliSig, nested, with/without whitespace: an accepted document carries nothing outside its payload but camliSig), hand-written signature packets by the other key stating another public-key algorithm (3/2/17/19/22, right digest prefix, issuer = victim; accepted => the value verifies by the harness's own RSA check under the named key), documents naming an encrypt-only key; unsigned objects with further keys that are case variants of camliSigner/camliVersion/camliType/camliSig before and after the real key, signed through five signing entry points incl. rings holding both keys; documents signed through the DEFAULT secret ring (SignRequest with neither EntityFetcher nor SecretKeyringPath, jsonsign handler configured without secretRing: POST camli/sig/sign, Handler.Sign, Signer) with the default resolved through CAMLI_SECRET_RING (single-entity ring, ring holding both keys) or CAMLI_CONFIG_DIR/identity-secring.gpg; unsigned objects whose keys and values carry format-sensitive text (printf verbs, %%, lone/trailing %, URL escapes, printf error markers, backslash text, \\u0025, shell/template markers, very long keys and values) signed through eleven signing entry points; distinct = distinct mutant byte string; non-trivial = differs from every validly signed document and was submitted to Verify",
 		run)
 }
 
@@ -843,6 +843,9 @@ func run(r *ev.Run) {
 	// ---- signing through the DEFAULT secret ring (CAMLI_SECRET_RING / config dir), rule 1
 	c.defaultRingDocs(years)
 
+	// ---- unsigned objects with format-sensitive text (printf verbs, %%, escapes, long keys/values), rule 1
+	c.formatSensitiveDocs(years)
+
 	// ---- many callers signing at once through shared signing objects (rule 1 per caller)
 	c.concurrentSigning()
 
@@ -939,6 +942,9 @@ func run(r *ev.Run) {
 		r.Require("case_variant_signing_paths", cpNames...)
 		r.Require("default_ring_signing_paths", drPaths...)
 		r.Require("default_ring_signed", drPaths...)
+		r.Require("format_sensitive_signing_paths", fpNames...)
+		r.Require("format_sensitive_signed", fpNames...)
+		r.Require("format_sensitive_content", fmtClassesRequired...)
 		r.Require("default_ring_resolutions", "CAMLI_SECRET_RING(single-entity ring)", "CAMLI_CONFIG_DIR/identity-secring.gpg", "CAMLI_SECRET_RING(ring holding both keys)")
 		// hand-written signature packets: the writer's positive control (algorithm 1, the named key's own
 		// secret) was accepted, so the digest prefix the forgeries carry is the right one; the forgeries
